@@ -4,7 +4,7 @@ Requests:
   (ping)
   (cache N timeout (schedule (pid choice) ...))      choice ∈ none | fail | kill | again
      -> (ok (trace (pid op res handlers stdout) ...)           one entry per schedule entry
-            (fs lock so obj marker failed gen)
+            (fs lock so obj marker failed gen tmp)
             (procs (pid pc nextop polls handlers stdout tok) ...)
             (counters nLock nRel nCompile))
   (schedules N timeout depth (pids pid ...))
@@ -29,13 +29,14 @@ def gS : GVal → String
   | .user => "user" | .capture => "capture"
 
 def causeS : Cause → String
-  | .gen => "gen" | .compile => "compile" | .marker => "marker" | .markOpen => "markopen"
-  | .markWrite => "markwrite"
+  | .gen => "gen" | .compile => "compile" | .marker => "marker" | .tmpExists => "tmpexists"
+  | .tmpOpen => "tmpopen" | .tmpWrite => "tmpwrite" | .publish => "publish"
 
 def opS : Op → String
   | .lock => "lock" | .poll => "poll" | .find => "find" | .load => "load" | .gen => "gen"
   | .swap => "swap" | .src => "src" | .obj => "obj" | .link1 => "link1" | .link2 => "link2"
-  | .unredir => "unredir" | .markCreate => "markcreate" | .markWrite => "markwrite" | .markRemove => "markremove" | .restore => "restore" | .release => "release"
+  | .unredir => "unredir" | .tmpCreate => "tmpcreate" | .tmpWrite => "tmpwrite" | .markCheck => "markcheck" | .publish => "publish"
+  | .tmpRemove => "tmpremove" | .restore => "restore" | .release => "release"
   | .kill => "kill" | .again => "again" | .none => "none"
 
 def resS : Res → String
@@ -48,7 +49,8 @@ def pcS : Pc → Sexp
   | .wFind => .atom "wFind" | .wLoad => .atom "wLoad"
   | .bGen => .atom "bGen" | .bSwap => .atom "bSwap" | .bSrc => .atom "bSrc" | .bObj => .atom "bObj"
   | .bLink1 => .atom "bLink1" | .bLink2 => .atom "bLink2" | .bUnredir => .atom "bUnredir"
-  | .bMarkCreate => .atom "bMarkCreate" | .bMarkWrite => .atom "bMarkWrite" | .bMarkRemove => .atom "bMarkRemove" | .bRestore => .atom "bRestore" | .bFind => .atom "bFind"
+  | .bTmpCreate => .atom "bTmpCreate" | .bTmpWrite => .atom "bTmpWrite" | .bMarkCheck => .atom "bMarkCheck"
+  | .bPublish => .atom "bPublish" | .bTmpRemove c => .list [.atom "bTmpRemove", .atom (causeS c)] | .bRestore => .atom "bRestore" | .bFind => .atom "bFind"
   | .bLoad => .atom "bLoad"
   | .bFailRestore c => .list [.atom "bFailRestore", .atom (causeS c)]
   | .bFail c => .list [.atom "bFail", .atom (causeS c)]
@@ -62,7 +64,8 @@ def pcS : Pc → Sexp
 def nextOp : Pc → String
   | .idle => "lock" | .wPoll _ => "poll" | .wFind => "find" | .wLoad => "load"
   | .bGen => "gen" | .bSwap => "swap" | .bSrc => "src" | .bObj => "obj" | .bLink1 => "link1"
-  | .bLink2 => "link2" | .bUnredir => "unredir" | .bMarkCreate => "markcreate" | .bMarkWrite => "markwrite" | .bMarkRemove => "markremove"
+  | .bLink2 => "link2" | .bUnredir => "unredir" | .bTmpCreate => "tmpcreate" | .bTmpWrite => "tmpwrite" | .bMarkCheck => "markcheck"
+  | .bPublish => "publish" | .bTmpRemove _ => "tmpremove"
   | .bRestore => "restore"
   | .bFind => "find" | .bLoad => "load" | .bFailRestore _ => "restore" | .bFail _ => "release"
   | .done _ _ | .raised _ | .dead => "none"
@@ -90,7 +93,7 @@ def scheduleOf (s : Sexp) : Except String (List (Nat × Choice)) := do
 
 def fsS (fs : FS) : Sexp :=
   .list [.atom "fs", .atom (lockS fs.lock), .atom (soS fs.so), Sexp.ofBool fs.obj,
-    Sexp.ofBool fs.marker, Sexp.ofBool fs.failed, Sexp.ofNat fs.gen]
+    Sexp.ofBool fs.marker, Sexp.ofBool fs.failed, Sexp.ofNat fs.gen, Sexp.ofBool fs.tmp]
 
 def cache (n timeout : Nat) (sch : List (Nat × Choice)) : Sexp :=
   let r := runTrace (init n timeout) sch
